@@ -35,7 +35,7 @@ type Query {
 interface Named { name: String }
 type Cat implements Named { name: String nick: String age: Int lives(extra: Int): Int friend: Cat ghost: String }
 type Dog implements Named { name: String tricks: [String] }
-union Pet = Cat | Dog
+union Pet = Dog | Cat
 input Page { size: Int = 10, offset: Int = 0, tags: [String] = ["x"], inner: Inner = {k: "v"} }
 input Inner { k: String = "d", n: Int = 7 }
 type Res { a: Int b(x: Int = 3): Int list: [Res] }
